@@ -12,6 +12,7 @@ import Mfi.Lemmas.SkelL
 import Mfi.Lemmas.ConstL
 import Mfi.Lemmas.TagL
 import Mfi.Lemmas.WorldL
+import Mfi.Lemmas.WorldLedger
 
 namespace Mfi.Props.C17
 open Mfi Mfi.Fx Mfi.Bank Mfi.Gen
@@ -359,6 +360,85 @@ theorem world_withdraw_keeps_deposits_above_debt {c : Ctx} {amt : Int} {all : Bo
     obtain ⟨⟨b2, x2⟩, hd, hcore⟩ := Res.bind_ok hcore
     injection hcore with hcore; injection hcore with hb _; subst hb
     exact utilization_after hd (by decide)
+
+/-- **world_deposit_below_limit**: after a successful `lending_account_deposit` (the whole instruction: accrual, the
+    'up to limit' clamp, the wrapper) that minted deposit shares on a bank with an active deposit limit, the bank's total
+    deposits — at the share value accrued to now — are strictly below the limit -/
+theorem world_deposit_below_limit {c : Ctx} {amount : Int} {upTo : Bool} {o : Out} (h : World.deposit c amount upTo = .ok o)
+    (hact : c.b.books.depositLimit ≠ U64MAX) (hminted : c.b.books.sa < o.books.sa) :
+    ∃ tot lim, assetAmount o.books o.books.sa = .ok tot ∧ depositLimitFx o.books = .ok lim ∧ tot < lim := by
+  obtain ⟨b, amt, hb, _, hcore⟩ := (deposit_ok h).core
+  have ht := accrue_totals hb
+  have hl := accrue_limits hb
+  split at hcore
+  · obtain ⟨_, hbooks, _⟩ := hcore
+    rw [hbooks, ht.1] at hminted; omega
+  · obtain ⟨slots, i, s, x', _, _, hd, _⟩ := hcore
+    unfold Ix.depositCore at hd
+    obtain ⟨⟨b2, x2⟩, hinc, hd⟩ := Res.bind_ok hd
+    obtain ⟨pre, _, hd⟩ := Res.bind_ok hd
+    injection hd with hd; injection hd with hbk _
+    dsimp only at hbk
+    subst hbk
+    exact deposit_below_limit hinc (by decide) (by rw [hl.1]; exact hact) (by rw [ht.1]; exact hminted)
+
+/-- **world_deposit_up_to_limit_books_at_most_the_capacity**: what a deposit flagged 'up to limit' books is at most the
+    amount asked for and at most the remaining capacity of the bank as accrued to now; when that is zero the instruction
+    succeeds and leaves every position and the bank's totals as accrual left them (it never fails for exceeding the limit:
+    `capacity_deposit_never_exceeds` is the bank-level half) -/
+theorem world_deposit_up_to_limit_books_at_most_the_capacity {c : Ctx} {amount : Int} {o : Out}
+    (h : World.deposit c amount true = .ok o) :
+    ∃ b cap, accrueInterest c.b.books c.b.ir c.now = .ok b ∧ remainingDepositCapacity b = .ok cap ∧
+      (min amount cap = 0 → o.slots = c.a.slots ∧ o.books = b ∧ o.tokens = 0) ∧
+      (min amount cap ≠ 0 → ∃ slots i s x', Account.findOrCreate c.a.slots c.b.key b.assetTag c.now = .ok (slots, i) ∧
+          slots[i]? = some s ∧ Ix.depositCore c.ixEnv b (some (toBal s)) (min amount cap) = .ok (o.books, x', o.tokens)) := by
+  obtain ⟨b, amt, hb, ha, hcore⟩ := (deposit_ok h).core
+  obtain ⟨cap, hcap, hamt, _, _⟩ := (deposit_up_to_limit_amount ha).1 rfl
+  refine ⟨b, cap, hb, hcap, ?_, ?_⟩
+  · intro h0
+    rw [hamt, h0] at hcore
+    simpa using hcore
+  · intro h0
+    rw [hamt] at hcore
+    simp only [h0, ↓reduceIte] at hcore
+    obtain ⟨slots, i, s, x', h1, h2, h3, _⟩ := hcore
+    exact ⟨slots, i, s, x', h1, h2, h3⟩
+
+theorem borrowCore_below_limit {e : Ix.Env} {b b' : Bank} {x x' : Balance} {amount t : Int}
+    (h : borrowCore e b x amount = .ok (b', x', t)) (hact : b.borrowLimit ≠ U64MAX) (hminted : b.sl < b'.sl) :
+    ∃ tot, liabAmount b' b'.sl = .ok tot ∧ tot < ofInt b'.borrowLimit := by
+  unfold borrowCore at h
+  obtain ⟨pre, _, h⟩ := Res.bind_ok h
+  split at h
+  · obtain ⟨fee, _, h⟩ := Res.bind_ok h
+    obtain ⟨_, _, h⟩ := Res.bind_ok h
+    obtain ⟨tot, _, h⟩ := Res.bind_ok h
+    obtain ⟨⟨b2, x2⟩, hd, h⟩ := Res.bind_ok h
+    dsimp only at h
+    split at h
+    · injection h with h; injection h with hb _; subst hb; exact borrow_below_limit hd (by decide) hact hminted
+    · split at h
+      · obtain ⟨pf, _, h⟩ := Res.bind_ok h
+        injection h with h; injection h with hb _; subst hb
+        have r := borrow_below_limit hd (t := .borrowOnly) (by decide) hact hminted
+        exact r
+      · injection h with h; injection h with hb _; subst hb
+        have r := borrow_below_limit hd (t := .borrowOnly) (by decide) hact hminted
+        exact r
+  · obtain ⟨⟨b2, x2⟩, hd, h⟩ := Res.bind_ok h
+    injection h with h; injection h with hb _; subst hb
+    exact borrow_below_limit hd (by decide) hact hminted
+
+/-- **world_borrow_below_limit**: after a successful `lending_account_borrow` (the whole instruction, origination fee
+    included in the debt) that minted debt shares on a bank with an active borrow limit, the bank's total debt — at the share
+    value accrued to now — is strictly below the limit -/
+theorem world_borrow_below_limit {c : Ctx} {amt : Int} {o : Out} (h : World.borrow c amt = .ok o)
+    (hact : c.b.books.borrowLimit ≠ U64MAX) (hminted : c.b.books.sl < o.books.sl) :
+    ∃ tot, liabAmount o.books o.books.sl = .ok tot ∧ tot < ofInt o.books.borrowLimit := by
+  obtain ⟨b, slots, i, x, x', hb, _, _, _, _, hcore, _⟩ := (borrow_ok h).core
+  have ht := accrue_totals hb
+  have hl := accrue_limits hb
+  exact borrowCore_below_limit hcore (by rw [hl.2]; exact hact) (by rw [ht.2]; exact hminted)
 
 end whole_instructions
 
